@@ -263,37 +263,46 @@ for _n in FRAME_DEFS:
 
 # ---------------------------------------------------------------------------
 # collections.deque of Optional[int]  (Settings._settings values)
-#   items: z3 Seq Int, head_none: Bool (first element is None)
+#   cells: z3 Array Int->Int, lo / hi: Int window [lo, hi) of live positions, head_none: Bool (first element is None)
+#   append writes cell hi and moves hi, popleft moves lo: no shifting, so every obligation about queues stays in the
+#   array-property / linear-integer fragment (the sequence-theory encoding used before was unstable in z3).
 DQ = 'collections.deque'
-SEQ_INT = z3.SeqSort(z3.IntSort())
+_DQF = ('cells', 'lo', 'hi', 'head_none')
 
 
 def _dq_get(I, recv):
+    """-> (cells, lo, hi, head_none)"""
     if isinstance(recv, View):
         m = I.heap.objs[recv.moid]
-        return (z3.Select(m.arrays[recv.prefix + 'items'], recv.idx),
-                z3.Select(m.arrays[recv.prefix + 'head_none'], recv.idx))
+        return tuple(z3.Select(m.arrays[recv.prefix + f], recv.idx) for f in _DQF)
     o = I.heap.get(recv)
     if o.forward is not None:
         return _dq_get(I, o.forward)
-    return o.fields['items'], o.fields['head_none']
+    return tuple(o.fields[f] for f in _DQF)
 
 
-def _dq_set(I, recv, items, head_none):
+def _dq_set(I, recv, cells, lo, hi, head_none):
+    vals = (cells, zint(lo), zint(hi), zbool(head_none))
     if isinstance(recv, View):
         m = I.heap.objs[recv.moid]
-        m.arrays[recv.prefix + 'items'] = z3.Store(m.arrays[recv.prefix + 'items'], recv.idx, items)
-        m.arrays[recv.prefix + 'head_none'] = z3.Store(m.arrays[recv.prefix + 'head_none'], recv.idx, zbool(head_none))
+        for f, v in zip(_DQF, vals):
+            m.arrays[recv.prefix + f] = z3.Store(m.arrays[recv.prefix + f], recv.idx, v)
         return
     o = I.heap.get(recv)
     if o.forward is not None:
-        return _dq_set(I, o.forward, items, head_none)
-    o.fields['items'], o.fields['head_none'] = items, head_none
+        return _dq_set(I, o.forward, cells, lo, hi, head_none)
+    for f, v in zip(_DQF, vals):
+        o.fields[f] = v
+
+
+def dq_len(lo, hi):
+    return zint(hi) - zint(lo)
 
 
 @extern_call('collections.deque')
 def deque_new(I, args, kwargs, node):
-    items = z3.Empty(SEQ_INT)
+    cells = z3.K(z3.IntSort(), z3.IntVal(0))
+    n = 0
     head_none = False
     if args:
         vals = list(I.iter_values(args[0], node))
@@ -302,54 +311,55 @@ def deque_new(I, args, kwargs, node):
                 if i != 0:
                     raise Unsupported('deque with None beyond the head')
                 head_none = True
-                items = z3.Concat(items, z3.Unit(z3.IntVal(0)))
+                cells = z3.Store(cells, n, z3.IntVal(0))
             else:
                 v = I.unopt(v, node)
-                items = z3.Concat(items, z3.Unit(zint(I.int_of(v))))
-    return I.heap.alloc(Obj(DQ, {'items': z3.simplify(items), 'head_none': head_none}))
+                cells = z3.Store(cells, n, zint(I.int_of(v)))
+            n += 1
+    return I.heap.alloc(Obj(DQ, {'cells': cells, 'lo': z3.IntVal(0), 'hi': z3.IntVal(n), 'head_none': zbool(head_none)}))
 
 
 @extern_method(DQ, '__len__')
 def deque_len(I, recv, o, args, kwargs, node):
-    items, _ = _dq_get(I, recv)
-    return z3.Length(items)
+    cells, lo, hi, _ = _dq_get(I, recv)
+    return z3.simplify(dq_len(lo, hi))
 
 
 @extern_method(DQ, '__getitem__')
 def deque_getitem(I, recv, o, args, kwargs, node):
-    items, hn = _dq_get(I, recv)
+    cells, lo, hi, hn = _dq_get(I, recv)
     i = I.int_of(args[0])
     if I.spec_mode and not (isinstance(i, int) and i == 0):
         # specification expressions may read any position (only the head can hold None)
         zi = zint(i)
-        return Opt(z3.And(zbool(hn), zi == 0), items[zi])
+        return Opt(z3.And(zbool(hn), zi == 0), z3.Select(cells, zint(lo) + zi))
     if not (isinstance(i, int) and i == 0):
         raise Unsupported('deque index other than 0')
     if I.spec_mode:
-        return Opt(zbool(hn), items[0])
-    if not I.branch(z3.Length(items) > 0, 'deque-nonempty'):
+        return Opt(zbool(hn), z3.Select(cells, zint(lo)))
+    if not I.branch(dq_len(lo, hi) > 0, 'deque-nonempty'):
         I.raise_builtin('IndexError', node=node)
-    return Opt(zbool(hn), z3.simplify(items[0]))
+    return Opt(zbool(hn), z3.simplify(z3.Select(cells, zint(lo))))
 
 
 @extern_method(DQ, 'append')
 def deque_append(I, recv, o, args, kwargs, node):
-    items, hn = _dq_get(I, recv)
+    cells, lo, hi, hn = _dq_get(I, recv)
     v = I.unopt(args[0], node)
     if v is None:
         raise Unsupported('deque.append(None)')
-    empty = z3.Length(items) == 0
-    _dq_set(I, recv, z3.Concat(items, z3.Unit(zint(I.int_of(v)))), zand(hn, znot(empty)) if True else hn)
+    empty = dq_len(lo, hi) == 0
+    _dq_set(I, recv, z3.Store(cells, zint(hi), zint(I.int_of(v))), lo, zint(hi) + 1, zand(hn, znot(empty)))
     return None
 
 
 @extern_method(DQ, 'popleft')
 def deque_popleft(I, recv, o, args, kwargs, node):
-    items, hn = _dq_get(I, recv)
-    if not I.branch(z3.Length(items) > 0, 'deque-nonempty'):
+    cells, lo, hi, hn = _dq_get(I, recv)
+    if not I.branch(dq_len(lo, hi) > 0, 'deque-nonempty'):
         I.raise_builtin('IndexError', node=node)
-    head = Opt(zbool(hn), z3.simplify(items[0]))
-    _dq_set(I, recv, z3.SubString(items, 1, z3.Length(items) - 1), False)
+    head = Opt(zbool(hn), z3.simplify(z3.Select(cells, zint(lo))))
+    _dq_set(I, recv, cells, zint(lo) + 1, hi, False)
     return head
 
 
